@@ -315,13 +315,21 @@ def c20_sig(v):
 
 # ------------------------------------------------------------------ engine-level properties
 ES_INV = ("TypeOK C01_Prefix C01_NothingLost C01_NoStuckBuffer C02_Order C03_OneClose C03_ClosedIsFinal C03_NoSpuriousError C04_Registry C04_NoUnderflow "
-          "C12_PollReleased C11_NoStuckPoll C12_BufferedFirst C12_NoLostWakeup C08_AtMostOnce C08_FailureKeepsSession C08_ProbeFirst C07_DeadlineArmed")
+          "C12_PollReleased C11_NoStuckPoll C12_BufferedFirst C12_NoLostWakeup C08_AtMostOnce C08_FailureKeepsSession C08_ProbeFirst C07_DeadlineArmed "
+          "C02_DqAll C02_DqPrefix C11_DqOneResponse C11_OkAfterAll C11_SlotFree")
+
+
+def dreq_consts(feats):
+    """feature "dreq" (data requests as goroutines of their own): payload set and bound ride on marker features"""
+    if '"dreq"' not in feats:
+        return 'PayloadSet = "none" MaxPosts = 0'
+    return 'PayloadSet = "%s" MaxPosts = %d' % ("t" if '"pt"' in feats else "q", 3 if '"posts3"' in feats else 2)
 
 
 def es_cfg(msgs, climsgs, polls, pings, feats, inv=ES_INV, dev="{}", props=True):
-    return ("SPECIFICATION Spec\nCONSTANTS Msgs = %s CliMsgs = %s MaxPolls = %d MaxPings = %d Features = %s Deviations = %s\n"
+    return ("SPECIFICATION Spec\nCONSTANTS Msgs = %s CliMsgs = %s MaxPolls = %d MaxPings = %d Features = %s Deviations = %s\n%s\n"
             "VIEW view\nINVARIANTS %s\n%sCHECK_DEADLOCK FALSE\n"
-            % (msgs, climsgs, polls, pings, feats, dev, inv, "PROPERTY C03_SilentAfterClose\n" if props and inv == ES_INV else ""))
+            % (msgs, climsgs, polls, pings, feats, dev, dreq_consts(feats), inv, "PROPERTY C03_SilentAfterClose\n" if props and inv == ES_INV else ""))
 
 
 # feature sets: window = the flush listener window (buffer taken, not yet handed over) is a separate step;
@@ -335,6 +343,9 @@ ES_FAMS = {
             ("{1,2,3}", "{7}", 4, 1, '{"upgrade","close","peer","heartbeat","window","late","closewin","abort"}')),
     "poll": (("{1,2}", "{7}", 4, 0, '{"overlap","peer","close","abort","window","dwindow","cwindow"}'),
              ("{1,2,3}", "{7,8}", 5, 1, '{"overlap","peer","close","heartbeat","abort","window","closewin","ctimeout","cwindow"}')),
+    # data requests as goroutines of their own (accept | packet by packet | end), against polls, closes, heartbeat, upgrade
+    "dreq": (("{1}", "{7,8}", 2, 1, '{"dreq","close","overlap","abort","closewin","heartbeat"}'),
+             ("{1,2}", "{7,8,9}", 3, 1, '{"dreq","pt","posts3","close","overlap","abort","closewin","heartbeat","upgrade","ctimeout"}')),
 }
 # every deviation must make TLC find its invariant violated (the invariants are not vacuous, the model is sensitive)
 ES_DEVS = [
@@ -351,6 +362,9 @@ ES_DEVS = [
     ("WsCloseCutsSend", "C12_BufferedFirst", '{"upgrade","close","window"}'),
     ("CloseSkipsTaken", "C12_BufferedFirst", '{"close","window"}'),
     ("CloseMissesDrain", "C12_NoLostWakeup", '{"close","window","dwindow","cwindow"}'),
+    ("DreqAbortIsError", "C03_NoSpuriousError", '{"dreq","close","closewin"}'),
+    ("OkFirst", "C11_OkAfterAll", '{"dreq","close"}'),
+    ("DreqKeepsSlot", "C11_SlotFree", '{"dreq","close"}'),
 ]
 MON_EIO_CFG = 'SPECIFICATION Spec\nCONSTANT TraceFile = "trace.ndjson"\nCHECK_DEADLOCK FALSE\n'
 
@@ -367,6 +381,8 @@ ES_COVER = {
             ("{1}", "{7}", 3, 0, '{"upgrade","close","window","late","closewin","lastonly"}')),
     "poll": (("{1}", "{}", 3, 0, '{"overlap","peer","close","abort","window","dwindow","cwindow","lastonly"}'),
              ("{1,2}", "{7}", 3, 0, '{"overlap","peer","close","abort","window","dwindow","cwindow","lastonly"}')),
+    "dreq": (("{}", "{7,8}", 1, 0, '{"dreq","close","overlap","closewin","lastonly"}'),
+             ("{1}", "{7,8}", 1, 0, '{"dreq","close","overlap","abort","closewin","lastonly"}')),
 }
 
 
@@ -414,13 +430,15 @@ def es_sensitivity(ctx):
 # liveness: the "eventually" halves of the properties (EioSession.tla FairSpec: one weak-fairness condition per server goroutine
 # and timer, a client that keeps polling, strong fairness for the candidate's upgrade packet), checked by TLC on instances
 # without history (feature nohist, no VIEW); every liveness property has a deviation that must violate it
-ES_LIVE_ALL = "L_C01_Delivered L_C08_UpgradeCompletes L_C11_PollAnswered L_C12_ClosingCloses L_NoLivelock"
+ES_LIVE_ALL = "L_C01_Delivered L_C08_UpgradeCompletes L_C11_PollAnswered L_C12_ClosingCloses L_C11_DqReturns L_NoLivelock"
 ES_LIVE = {
     # name: (quick (msgs, polls, features), thorough (msgs, polls, features))
     "life": (("{1,2}", 3, '{"close","peer","heartbeat","overlap","closewin","cwindow","ctimeout","nohist"}'),
              ("{1,2}", 4, '{"overlap","peer","close","abort","window","dwindow","cwindow","ctimeout","heartbeat","nohist"}')),
     "upg": (("{1}", 3, '{"upgrade","window","close","heartbeat","ctimeout","closewin","late","nohist"}'),
             ("{1,2}", 3, '{"upgrade","window","close","heartbeat","ctimeout","closewin","late","nohist"}')),
+    "dreq": (("{1}", 2, '{"dreq","close","overlap","abort","closewin","ctimeout","nohist"}'),
+             ("{1}", 3, '{"dreq","pt","close","overlap","abort","closewin","ctimeout","heartbeat","nohist"}')),
 }
 ES_LIVE_DEVS = [
     ("TimeoutOnlyOpen", "L_C12_ClosingCloses", 2, '{"close","heartbeat","ctimeout","window","nohist"}'),
@@ -432,8 +450,9 @@ ES_LIVE_DEVS = [
 
 
 def live_cfg(msgs, polls, feats, props, dev="{}"):
-    return ("SPECIFICATION FairSpec\nCONSTANTS Msgs = %s CliMsgs = {} MaxPolls = %d MaxPings = 1 Features = %s Deviations = %s\n"
-            "INVARIANTS TypeOK\nPROPERTIES %s\nCHECK_DEADLOCK FALSE\n" % (msgs, polls, feats, dev, props))
+    return ("SPECIFICATION FairSpec\nCONSTANTS Msgs = %s CliMsgs = %s MaxPolls = %d MaxPings = 1 Features = %s Deviations = %s\n%s\n"
+            "INVARIANTS TypeOK\nPROPERTIES %s\nCHECK_DEADLOCK FALSE\n"
+            % (msgs, "{7,8}" if '"dreq"' in feats else "{}", polls, feats, dev, dreq_consts(feats), props))
 
 
 def es_liveness(ctx):
@@ -614,6 +633,14 @@ eng_prop("C08", ["upg"], extra=("direct",), nq=90)
 eng_prop("C11", ["poll"], extra=("direct",), nq=90)
 eng_prop("C12", ["life", "poll"], extra=("grace", "direct"), reg=True)
 eng_prop("C18", ["flow"], extra=("reent", "direct"), nq=90)
+
+
+@prop("XFAM")
+def xfam(ctx):
+    """development aid: XFAM=fam1,fam2 ./check XFAM   - the engine pipeline for the named model families only"""
+    evs = eng_run(ctx, os.environ["XFAM"].split(","), 20, 200, ())
+    ctx.assumptions = ENG_ASSUME
+    return M.finish(ctx, rule=ENG_RULE, evs=evs)
 
 
 # ----------------------------------------------------------------------- C05
